@@ -157,6 +157,16 @@ Theorem C14_carry_over : forall host port st a,
 Proof. exact next_request. Qed.
 Print Assumptions C14_carry_over.
 
+(* a bare Client.transmit() (constructor request, backendRequest, the resend after an event
+   stream reconnect) sends the held request again: body / data / form fields included *)
+Theorem C14_resend : forall host port st,
+  let r := request_of st in
+  let r' := request_of (apply_args (snd (build_step host port st)) bare_args) in
+  q_method r' = q_method r /\ q_path r' = q_path r /\ q_qargs r' = q_qargs r /\
+  q_body r' = q_body r /\ q_headers r' = final_headers r.
+Proof. exact resend_request. Qed.
+Print Assumptions C14_resend.
+
 (* Hence the single-request round trip lifts to every build of every history. *)
 Theorem C14_history_lift : forall o host port ops st,
   Forall (fun rw => roundtrip o host port (fst rw) = true ->
@@ -166,7 +176,7 @@ Proof. exact history_roundtrip. Qed.
 Print Assumptions C14_history_lift.
 
 (* Finite domain: 36 first requests (paths with blank, non-ASCII, literal %) x
-   every sequence of at most two rebuilds out of 6 (no arguments, method+body,
+   every sequence of at most two rebuilds out of 7 (no arguments, bare resend, method+body,
    path only, qargs+data, method+headers+fargs, GET with empty qargs): every
    build is well formed and parses back to the request of THAT build. *)
 Theorem C14_history_partial : forall rs, In rs h_grid -> history_ok rs = true.
